@@ -41,6 +41,9 @@ type extSpec struct {
 	// AltDep (k > 0): the odd versions of this project require and load project k-1 instead of
 	// Loads, under the same alias ("dep"): one name, another project behind it.
 	AltDep int `json:"alt_dep,omitempty"`
+	// Flag: lib.dawn declares a flag while it loads (parse_flag): a module of a required
+	// project may add to what the root project offers.
+	Flag bool `json:"flag,omitempty"`
 }
 
 // extDep: the project that version v of project i requires and loads (-1: none).
@@ -137,6 +140,9 @@ func (p *projSpec) extFiles(i, v int) map[string]string {
 	}
 	if e.Fails {
 		fmt.Fprintf(&sb, "fail(\"lib.dawn of %s is broken\")\n", extPath(i))
+	}
+	if e.Flag {
+		fmt.Fprintf(&sb, "EXT%d_FLAG = parse_flag(\"extopt%d\", default=\"d%d\")\n", i, i, i)
 	}
 	fmt.Fprintf(&sb, "EXT%d_K = %s\n", i, e.valAt(v).render())
 	parts := []string{e.litAt(v).render(), fmt.Sprintf("EXT%d_K", i)}
